@@ -126,12 +126,19 @@ fn text_case(rng: &mut crate::rng::Rng, n: usize, rep: u64) -> Result<Vec<u8>, (
     let k = k.min(kmax);
     let mut chars: Vec<char> = Vec::new();
     for _ in 0..k {
-        chars.push(char::from_u32(0x4e00 + rng.below(0x1000) as u32).unwrap());
+        // three-byte characters from every lead byte 0xE0..=0xEF (0xED: U+D000..U+D7FF only, the surrogates are not characters)
+        let lead = rng.below(16) as u32;
+        let (lo, hi) = match lead {
+            0 => (0x0800u32, 0x0FFFu32),
+            13 => (0xD000, 0xD7FF),
+            l => (l << 12, (l << 12) | 0xFFF),
+        };
+        chars.push(char::from_u32(lo + rng.below((hi - lo + 1) as u64) as u32).unwrap_or('\u{4e00}'));
     }
     let mut rest = n - 3 * k;
     // a few two-byte characters
     while rest >= 2 && rng.below(4) == 0 && chars.len() + rest - 1 <= 127 {
-        chars.push(char::from_u32(0xA1 + rng.below(0x5E) as u32).unwrap());
+        chars.push(char::from_u32(0x80 + rng.below(0x780) as u32).unwrap());
         rest -= 2;
     }
     for _ in 0..rest {
